@@ -390,3 +390,33 @@ Print Assumptions C07_src_aggregate_serialization.
 Print Assumptions C07_src_aggregate_deserialization.
 Print Assumptions C07_src_aggregate_class_list.
 Print Assumptions C07_src_flat_resolved_mapper.
+
+(* ---- the deserializer itself, mapper ON: Gen/DeserializeSrc.v is re-generated from
+   typedpy/serialization/serialization.py (harness/genmods/py2v_deserialize.py): deserialize_structure_internal,
+   construct_fields_map, get_processed_input, deserialize_single_field, deserialize_array / _set / _list_like, tied by
+   the generated knot src_full_fix.  For EVERY class of the model (rename-only mapper list, explicit mapper,
+   camel_case_convert, nested classes directly / through Array / Set), and every document on which the model's
+   deser_struct returns fields, what the source computes NOW is the instance carrying exactly those fields, each
+   nesting level under the nested mapper the source looks up for it.  [mapped_cov]: field names pairwise different,
+   mapped keys without ".", nested-mapper lookups that find a dict or nothing.  aggregate_deserialization_mappers is
+   the oracle entry of that name ([ext_mapped_agrees]: it is the model's aggregate, which C07_src_aggregate_deserialization
+   ties to mappers.py); keep_undefined is off (the correspondence's configuration). *)
+From TP Require Import Base.PyOpsDeserialize Gen.DeserializeSrc Ser.DeserializeSrcProofs Ser.DeserializeMappedSrcProofs.
+From Coq Require Import String.
+Local Open Scope string_scope.
+
+Theorem C07_src_deserialize_mapped :
+  forall re_match e ens (h : heap) (ext : extern),
+    ext_agrees re_match e ens ext -> ext_struct_agrees ext -> ext_mapped_agrees ext ->
+    h (s2p "Structure") (s2p "failing_fast()") = Some (PBool true) ->
+    (exists v, h (s2p "TypedPyDefaults") (s2p "additional_properties_default") = Some v) ->
+    forall c (override : option amap) (camelflag : bool) doc x fuel nm ssv,
+      (8 * cdepth c <= fuel)%nat ->
+      mapped_cov c override camelflag = true ->
+      deser_struct c override camelflag doc = Ok x ->
+      r_deserialize_structure_internal (src_full_fix h ext fuel) (menc_class c) (enc_dval (DDict doc)) nm (PBool false)
+        (enc_override override) (PBool false) (PBool camelflag) (PBool false) ssv =
+      Ok (enc_ival (IStruct x) (Some (KRef, c))).
+Proof. exact src_deserialize_mapped. Qed.
+
+Print Assumptions C07_src_deserialize_mapped.
